@@ -1,7 +1,5 @@
 import SlipVerif.Lemmas.LoadForm
 import SlipVerif.Lemmas.SnapshotOrder
-import Mathlib.Data.List.Perm.Subperm
-import Mathlib.Data.String.Basic
 /-
   C19 — property theorems about SlipVerif.Model.LoadForm (the model the correspondence harness
   runs against the implementation: harness/cmd/vh/c19.go).
@@ -58,77 +56,6 @@ example : isKeyword "a" = false := by decide
 
 /-! ## snapshot order -/
 
-/-- in a world, a definition inherits strictly more than each of its components -/
-theorem World.inherits_lt {ns : List Node} (w : World ns) {a b : Node} (ha : a ∈ ns) (hb : b ∈ ns)
-    (h : b.name ∈ a.inherits) : b.inherits.length < a.inherits.length := by
-  have hsub : b.inherits ⊆ a.inherits.erase b.name := by
-    intro x hx
-    have hxa : x ∈ a.inherits := w.closed a ha b hb h hx
-    have hne : x ≠ b.name := fun e => w.irrefl b hb (e ▸ hx)
-    exact (List.mem_erase_of_ne hne).mpr hxa
-  have hle := ((w.nodup b hb).subperm hsub).length_le
-  rw [List.length_erase_of_mem h] at hle
-  have hpos : 0 < a.inherits.length := List.length_pos_of_mem h
-  omega
-
-theorem keyLe_total (a b : Node) : keyLe a b = true ∨ keyLe b a = true := by
-  unfold keyLe
-  rcases Nat.lt_trichotomy a.inherits.length b.inherits.length with h | h | h
-  · left; simp [h]
-  · rcases le_total a.name b.name with h' | h'
-    · left; simp [h, h']
-    · right; simp [h, h']
-  · right; simp [h]
-
-theorem keyLe_trans (a b c : Node) (h1 : keyLe a b = true) (h2 : keyLe b c = true) :
-    keyLe a c = true := by
-  unfold keyLe at *
-  simp only [Bool.or_eq_true, Bool.and_eq_true, decide_eq_true_eq, beq_iff_eq] at *
-  rcases h1 with h1 | ⟨h1, h1'⟩ <;> rcases h2 with h2 | ⟨h2, h2'⟩
-  · left; omega
-  · left; omega
-  · left; omega
-  · right; exact ⟨by omega, le_trans h1' h2'⟩
-
-theorem insertBy_perm (le : Node → Node → Bool) (x : Node) (l : List Node) :
-    (insertBy le x l).Perm (x :: l) := by
-  induction l with
-  | nil => simp [insertBy]
-  | cons y ys ih =>
-    unfold insertBy
-    split
-    · exact List.Perm.refl _
-    · exact ((List.Perm.cons y ih).trans (List.Perm.swap x y ys))
-
-theorem sortBy_perm (le : Node → Node → Bool) (l : List Node) : (sortBy le l).Perm l := by
-  induction l with
-  | nil => simp [sortBy]
-  | cons x xs ih => exact (insertBy_perm le x _).trans (List.Perm.cons x ih)
-
-theorem insertBy_sorted (x : Node) (l : List Node) (h : l.Pairwise (fun a b => keyLe a b = true)) :
-    (insertBy keyLe x l).Pairwise (fun a b => keyLe a b = true) := by
-  induction l with
-  | nil => simp [insertBy]
-  | cons y ys ih =>
-    have hy := List.pairwise_cons.mp h
-    unfold insertBy
-    split
-    · rename_i hxy
-      refine List.pairwise_cons.mpr ⟨?_, h⟩
-      intro z hz
-      rcases List.mem_cons.mp hz with rfl | hz
-      · exact hxy
-      · exact keyLe_trans _ _ _ hxy (hy.1 z hz)
-    · rename_i hxy
-      refine List.pairwise_cons.mpr ⟨?_, ih hy.2⟩
-      intro z hz
-      have hz' := (insertBy_perm keyLe x ys).subset hz
-      rcases List.mem_cons.mp hz' with rfl | hz'
-      · rcases keyLe_total z y with h' | h'
-        · exact absurd h' hxy
-        · exact h'
-      · exact hy.1 z hz'
-
 /-- the snapshot order is sorted by the key … -/
 theorem snapshotOrder_sorted (ns : List Node) :
     (snapshotOrder ns).Pairwise (fun a b => keyLe a b = true) := by
@@ -183,6 +110,23 @@ theorem snapshot_order_enumeration_independent (ns ms : List Node) (w : World ns
   · exact le_antisymm h1 h2
 example : sampleWorld.Perm sampleWorld.reverse := (List.reverse_perm _).symm
 
+/-- **The snapshot order loads.** defflavor refuses a flavor whose components are not yet
+    defined. For every world in which inherited names refer to definitions of the world, defining
+    the flavors in the snapshot order never meets an undefined component: every definition of the
+    saved world is restored, in that order. -/
+theorem snapshot_order_loads (ns : List Node) (w : World ns) (g : Grounded ns) :
+    loadFlavors (snapshotOrder ns) [] = .ok ((snapshotOrder ns).map (·.name)) := by
+  have hp := snapshotOrder_perm ns
+  have := loadFlavors_ok (snapshotOrder ns) []
+    (by
+      intro a ha x hx
+      obtain ⟨b, hb, hbn⟩ := g a (hp.subset ha) x hx
+      exact ⟨b, by simpa using hp.symm.subset hb, hbn⟩)
+    (topo_order_sound ns w)
+    (fun a ha => w.irrefl a (hp.subset ha))
+  simpa using this
+example : Grounded sampleWorld := by unfold Grounded; decide
+
 /-! ## worlds as slip builds them -/
 
 /-- **Every session history yields a world.** Whatever sequence of definitions a session makes
@@ -214,13 +158,15 @@ def incomparable (x y : Node) : Bool := !inheritsLess x y && !inheritsLess y x
 /-- **"less a b := b inherits a" is not a strict weak order**: on the witness, incomparability is
     not transitive (b ~ c and c ~ a but a < b), so sort.Slice is free to leave `b` before `a`;
     and the insertion sort that sort.Slice runs on short slices does: its output on the
-    enumeration b, c, a is not topologically ordered, while `snapshotOrder` is. -/
+    enumeration b, c, a is not topologically ordered — loading it fails at `b` (its component `a`
+    is not yet defined) — while `snapshotOrder` is. -/
 theorem inherits_comparator_not_weak_order :
     (¬ ∀ x ∈ witness, ∀ y ∈ witness, ∀ z ∈ witness,
         incomparable x y = true → incomparable y z = true → incomparable x z = true)
     ∧ topoOk (goInsertionSort inheritsLess witness) = false
+    ∧ loadFlavors (goInsertionSort inheritsLess witness) [] = .error "b"
     ∧ topoOk (snapshotOrder witness) = true := by
-  refine ⟨?_, by decide, by decide⟩
+  refine ⟨?_, by decide, by decide, by decide⟩
   intro h
   have := h ⟨"b", ["a"]⟩ (by decide) ⟨"c", []⟩ (by decide) ⟨"a", []⟩ (by decide) (by decide) (by decide)
   exact absurd this (by decide)
